@@ -18,6 +18,7 @@ mod c11;
 mod c12;
 mod c13;
 mod c14;
+mod c15;
 mod c18;
 mod alloc;
 
@@ -60,6 +61,7 @@ fn main() {
     "C12" => c12::run(&ctx),
     "C13" => c13::run(&ctx),
     "C14" => c14::run(&ctx),
+    "C15" => c15::run(&ctx),
     "C18" => c18::run(&ctx),
     _ => {
       eprintln!("unknown property {}", prop);
